@@ -216,6 +216,18 @@ inline const boost::property_tree::ptree& empty_ptree() {
 }
 #endif
 
+// Used by the stream extractors of the component enumerations. A value like
+// "cg x" would otherwise be parsed as its first token by the extractor, then
+// rejected as a whole by boost::property_tree, and ptree::get(key, default)
+// would silently select the default component.
+inline void reject_trailing_text(std::istream &in, const std::string &val) {
+    std::string rest;
+    if (in >> rest)
+        throw std::invalid_argument(
+                "Unexpected text after the value \"" + val + "\": \"" + rest + "\"");
+    in.clear(std::ios_base::eofbit);
+}
+
 struct empty_params {
     empty_params() {}
 
